@@ -11,62 +11,21 @@ import (
 func init() { register("C06", propC06) }
 
 func propC06(c *Ctx) {
-	c.Explanation = "That every emitted frame decodes under an independent decoder in every scenario is behavioural; decided here are the construction rules that make it so, for every argument value. The bit layout of every header field is decided by C15 (bit provenance against RFC tables) and is not repeated. (E0) the Internet checksum never drops a carry (shared with C15/B4). (E1) checksum def-use and order: IPv4 header checksum = complement of Checksum(header[:IHL], 0), computed after Encode and stored last before the link write; TCP and UDP checksums = complement of Checksum(header, Checksum(length, pseudo-header(src,dst,proto) continued over every payload view)), length = header + payload, skipped only under checksum offload; ICMPv6 = complement of the sum over src, dst, 32-bit length, next-header 58, payload views and the header with its checksum bytes zeroed and restored; the pseudo-header uses the route's local and remote address. (E2) length fields: IPv4 TotalLength = UsedLength AFTER this layer's Prepend + payload size and the 16-bit narrowing is guarded; UDP Length likewise (narrowing: C11/U6); IPv6 PayloadLength = UsedLength BEFORE its Prepend + payload size; TCP DataOffset = 20 + len(options) = the prepended size, options copied right after the fixed header. (E3) addressing: IP source/destination = route local/remote address; TCP ports from the endpoint id handed in (replyWithReset passes the segment's own id and route), UDP ports from the arguments; Ethernet destination = the route's remote link address, source = the route's local link address (or the NIC's own when the route has no local address), type = the protocol argument. (E4) IPv4 ID: packets longer than 68 bytes take atomic.AddUint32(&ids[hash(route,proto) % buckets], 1), so consecutive large packets of one flow differ; others 0. (E5) TCP options: for every combination of {TS, SACK-permitted, WS >= 0} in makeSynOptions and {TS, SACK blocks} in makeOptions the encoded length is a multiple of 4 and fits the 40-byte option buffer (path evaluation with each encoder's own size), so no padding is needed and the two 'unexpected option encoding' panics are unreachable. (E6) FindRoute scans the route table from index 0 upwards and returns at the first entry that matches and has a usable endpoint; the source address is that endpoint's own address, the next hop the entry's gateway; (E6m) an entry matches only when every byte of the destination agrees under the entry's mask (partial mask bytes included). (E0w) no 16-bit word handed to Checksum/ChecksumCombine anywhere in the module comes from wrapping 16-bit arithmetic or a lossy narrowing (interval evaluation). (E7) neighbour-cache ring reuse unmaps the old key before the slot is overwritten (shared with C12/T3), so the link address returned for a next hop is that neighbour's. E3 also decides that udp Connect keeps the bound local port (the zero port only from the unbound state; shared with C09/D6). NOT decided: checksum arithmetic beyond carry handling (induction over the loop), views of odd length in the middle of a payload, frames of scenarios no rule names (DNS, DHCP helpers), the fd-based endpoint's writev."
+	c.Explanation = "That every emitted frame decodes under an independent decoder in every scenario is behavioural; decided here are the construction rules that make it so, for every argument value. The bit layout of every header field is decided by C15 (bit provenance against RFC tables) and is not repeated. (E0) the Internet checksum never drops a carry (shared with C15/B4). (E1) checksum def-use and order: IPv4 header checksum = complement of Checksum(header[:IHL], 0), computed after Encode and stored last before the link write; TCP and UDP checksums = complement of Checksum(header, Checksum(length, pseudo-header(src,dst,proto) continued over every payload view)), length = header + payload, skipped only under checksum offload; ICMPv6 = complement of the sum over src, dst, 32-bit length, next-header 58, payload views and the header with its checksum bytes zeroed and restored; the pseudo-header uses the route's local and remote address. (E2) length fields: IPv4 TotalLength = UsedLength AFTER this layer's Prepend + payload size and the 16-bit narrowing is guarded; UDP Length likewise (narrowing: C11/U6); IPv6 PayloadLength = UsedLength BEFORE its Prepend + payload size; TCP DataOffset = 20 + len(options) = the prepended size, options copied right after the fixed header. (E3) addressing: IP source/destination = route local/remote address; TCP ports from the endpoint id handed in (replyWithReset passes the segment's own id and route), UDP ports from the arguments; Ethernet destination = the route's remote link address, source = the route's local link address (or the NIC's own when the route has no local address), type = the protocol argument. (E4) IPv4 ID: packets longer than 68 bytes take atomic.AddUint32(&ids[hash(route,proto) % buckets], 1), so consecutive large packets of one flow differ; others 0. (E5) TCP options: for every combination of {TS, SACK-permitted, WS >= 0} in makeSynOptions and {TS, SACK blocks} in makeOptions the encoded length is a multiple of 4 and fits the 40-byte option buffer (path evaluation with each encoder's own size), so no padding is needed and the two 'unexpected option encoding' panics are unreachable. (E6) FindRoute scans the route table from index 0 upwards and returns at the first entry that matches and has a usable endpoint; the source address is that endpoint's own address, the next hop the entry's gateway; (E6m) an entry matches only when every byte of the destination agrees under the entry's mask (partial mask bytes included). (E0w) no 16-bit word handed to Checksum/ChecksumCombine anywhere in the module comes from wrapping 16-bit arithmetic or a lossy narrowing (interval evaluation). (E7) neighbour-cache ring reuse unmaps the old key before the slot is overwritten (shared with C12/T3), so the link address returned for a next hop is that neighbour's. E3 also decides that udp Connect keeps the bound local port (the zero port only from the unbound state; shared with C09/D6). (E8) the IPv4 echo reply is built by the reviewed table: checksum = complement of the sum over the built bytes continued over the payload (shared with C13/I3). (E9) the ARP request is stamped Ethernet/IPv4 and the IPv6 emitter encodes into exactly the 40 bytes it prepended; (E10) each transport emitter performs one packet write with its own protocol number and returns its result. (E11) lengths and identifiers are squeezed into header fields only at the reviewed narrowing conversions of the IP emitters (closed world). NOT decided: checksum arithmetic beyond carry handling (induction over the loop), views of odd length in the middle of a payload, frames of scenarios no rule names (DNS, DHCP helpers), the fd-based endpoint's writev."
 
 	checksumCarryRule(c, "E0")
 
+	sendPing4Rule(c, c.Rule("E8", "K5 provenance (shared with C13/I3)", "the IPv4 echo reply carries a checksum computed over what is sent: complement of the one's-complement sum over the built header bytes and the payload", 8))
+	e9 := c.Rule("E9", "K7 exact-guard site tables", "the ARP request is stamped Ethernet/IPv4; the IPv6 emitter encodes into exactly the 40 bytes it prepended", 2)
+	arpRequestRule(c, e9)
+	ipv6EncodeRule(c, e9)
+	sendResultRule(c, c.Rule("E10", "K7 closed return tables", "each transport emitter performs one packet write with its own protocol number and returns its result", 3), "tcp.sendTCP", "udp.sendUDP", "tcp.sendSynTCP")
+	c.NoNewNarrowing(c.Rule("E11", "K8 narrowing (closed world, reviewed table)", "lengths and identifiers are squeezed into header fields only at the reviewed places of the IP emitters", 8), []string{"/network/ipv4", "/network/ipv6", "/network/arp"}, narrowIP)
 	e1 := c.Rule("E1", "K5 def-use + K2 order", "checksum construction", 30)
 	c.Assume(e1, "assumption/fresh-header-region-is-zero", "pkg/buffer/prependable.go", "a region returned by Prependable.Prepend has not been written before: NewPrependable allocates with make (zeroed) and usedIdx only decreases (C16/V5), so the checksum bytes are 0 when the sum is taken")
 	off := "(((*stack.Route).Capabilities($0) & 1) == 0)"
-	if fn := c.Fn(e1, "(*ipv4.endpoint).WritePacket"); fn != nil {
-		fits := "(((20 + buffer.Prependable.UsedLength($2)) + buffer.VectorisedView.Size($3)) < 65536)"
-		ip := "(*buffer.Prependable).Prepend(&new(buffer.Prependable), 20)"
-		tl := "(buffer.Prependable.UsedLength(new(buffer.Prependable)@2) + buffer.VectorisedView.Size($3))"
-		big := "!(" + tl + " < 69)"
-		c.CheckSites(e1, fn, []SiteSpec{
-			{Kind: "return", Args: []string{"tcpip.ErrMessageTooLong"}, Guards: []string{"!" + fits}, Exact: true, N: 1, Why: "E2: a datagram whose total length does not fit 16 bits is refused (fixed D5)"},
-			{Kind: "call", Target: "(*buffer.Prependable).Prepend", Args: []string{"&new(buffer.Prependable)", "20"}, Guards: []string{fits}, Exact: true, N: 1, Why: "20-byte header, no options"},
-			{Kind: "store", Target: "header.IPv4Fields.IHL", Args: []string{"new(header.IPv4Fields)", "20"}, Guards: []string{fits}, Exact: true, N: 1, Why: "IHL = the prepended size"},
-			{Kind: "store", Target: "header.IPv4Fields.TotalLength", Args: []string{"new(header.IPv4Fields)", tl}, Guards: []string{fits}, Exact: true, N: 1, Why: "E2: total length = used header bytes AFTER the prepend (@2) + payload size"},
-			{Kind: "call", Target: "sync/atomic.AddUint32", Args: []string{"&ipv4.ids[(ipv4.hashRoute($1, $4) % 2048)]", "1"}, Guards: []string{fits, big}, Exact: true, N: 1, Why: "E4: per-flow bucket counter, incremented atomically, for packets that may be fragmented (> 68 bytes)"},
-			{Kind: "store", Target: "header.IPv4Fields.ID", Args: []string{"new(header.IPv4Fields)", "phi{0 | sync/atomic.AddUint32(&ipv4.ids[(ipv4.hashRoute($1, $4) % 2048)], 1)}"}, Guards: []string{fits}, Exact: true, N: 1, Why: "E4: ID = that counter value (0 for small packets)"},
-			{Kind: "store", Target: "header.IPv4Fields.TTL", Args: []string{"new(header.IPv4Fields)", "$5"}, Guards: []string{fits}, Exact: true, N: 1, Why: "TTL argument"},
-			{Kind: "store", Target: "header.IPv4Fields.Protocol", Args: []string{"new(header.IPv4Fields)", "$4"}, Guards: []string{fits}, Exact: true, N: 1, Why: "transport protocol argument"},
-			{Kind: "store", Target: "header.IPv4Fields.SrcAddr", Args: []string{"new(header.IPv4Fields)", "$1.LocalAddress"}, Guards: []string{fits}, Exact: true, N: 1, Why: "E3: source = route local address"},
-			{Kind: "store", Target: "header.IPv4Fields.DstAddr", Args: []string{"new(header.IPv4Fields)", "$1.RemoteAddress"}, Guards: []string{fits}, Exact: true, N: 1, Why: "E3: destination = route remote address"},
-			{Kind: "call", Target: "header.IPv4.Encode", Args: []string{ip, "&new(header.IPv4Fields)"}, Guards: []string{fits}, Exact: true, N: 1, Why: "fields written into the prepended region"},
-			{Kind: "call", Target: "header.IPv4.SetChecksum", Args: []string{ip, "^header.IPv4.CalculateChecksum(" + ip + ")"}, Guards: []string{fits}, Exact: true, N: 1, Why: "E1: complement of the header sum"},
-			{Kind: "call", Target: "iface:stack.LinkEndpoint.WritePacket", Args: []string{"$0.linkEP", "$1", "new(buffer.Prependable)@2", "$3", "2048"}, Guards: []string{fits}, Exact: true, N: 1, Why: "one frame: this header buffer + the unchanged payload, EtherType IPv4, same route"},
-			{Kind: "return", Args: []string{"iface:stack.LinkEndpoint.WritePacket($0.linkEP, $1, new(buffer.Prependable)@2, $3, 2048)"}, Guards: []string{fits}, Exact: true, N: 1, Why: "the link layer's result"},
-		})
-		c.Ordered(e1, fn, []string{"Prepend", "Encode", "CalculateChecksum", "SetChecksum", "link write"}, []func(Site) bool{isCall("(*buffer.Prependable).Prepend"), isCall("header.IPv4.Encode"), isCall("header.IPv4.CalculateChecksum"), isCall("header.IPv4.SetChecksum"), isCall("iface:stack.LinkEndpoint.WritePacket")})
-	}
-	if fn := c.Fn(e1, "header.IPv4.CalculateChecksum"); fn != nil {
-		c.CheckSites(e1, fn, []SiteSpec{{Kind: "return", Args: []string{"header.Checksum($0[:header.IPv4.HeaderLength($0)], 0)"}, Guards: []string{}, Exact: true, N: 1, Why: "sum over exactly the IHL header bytes, from 0"}})
-	}
-	for _, v := range []struct{ fn, hdr string }{{"header.TCP.CalculateChecksum", "$0[:header.TCP.DataOffset($0)]"}, {"header.UDP.CalculateChecksum", "$0[:8]"}} {
-		if fn := c.Fn(e1, v.fn); fn != nil {
-			c.CheckSites(e1, fn, []SiteSpec{
-				{Kind: "call", Target: "encoding/binary.bigEndian.PutUint16", Args: []string{"encoding/binary.BigEndian", "new([2]byte)[:2]", "$2"}, Guards: []string{}, Exact: true, N: 1, Why: "the pseudo-header length word, big-endian"},
-				{Kind: "call", Target: "header.Checksum", Args: []string{"new([2]byte)[:2]", "$1"}, Guards: []string{}, Exact: true, N: 1, Why: "added to the partial sum"},
-				{Kind: "call", Target: "header.Checksum", Args: []string{v.hdr, "header.Checksum(new([2]byte)[:2], $1)"}, Guards: []string{}, Exact: true, N: 1, Why: "then the transport header bytes (with options for TCP)"},
-				{Kind: "return", Args: []string{"header.Checksum(" + v.hdr + ", header.Checksum(new([2]byte)[:2], $1))"}, Guards: []string{}, Exact: true, N: 1, Why: "that sum is the result"},
-			})
-			c.Ordered(e1, fn, []string{"length word written", "length word summed"}, []func(Site) bool{isCall("encoding/binary.bigEndian.PutUint16"), func(s Site) bool {
-				return s.Kind == "call" && s.Target == "header.Checksum" && len(s.Args) == 2 && s.Args[0] == "new([2]byte)[:2]"
-			}})
-		}
-	}
-	if fn := c.Fn(e1, "header.PseudoHeaderChecksum"); fn != nil {
-		c.CheckSites(e1, fn, []SiteSpec{
-			{Kind: "elemstore", Target: "&new([2]byte)", Args: []string{"0", "0"}, Guards: []string{}, Exact: true, N: 1, Why: "zero byte"},
-			{Kind: "elemstore", Target: "&new([2]byte)", Args: []string{"1", "$0"}, Guards: []string{}, Exact: true, N: 1, Why: "protocol number"},
-			{Kind: "return", Args: []string{"header.Checksum([0, $0], header.Checksum($2, header.Checksum($1, 0)))"}, Guards: []string{}, Exact: true, N: 1, Why: "source, destination, (0, protocol)"},
-		})
-	}
-	if fn := c.Fn(e1, "(*stack.Route).PseudoHeaderChecksum"); fn != nil {
-		c.CheckSites(e1, fn, []SiteSpec{{Kind: "return", Args: []string{"header.PseudoHeaderChecksum($1, $0.LocalAddress, $0.RemoteAddress)"}, Guards: []string{}, Exact: true, N: 1, Why: "E3: the pseudo-header carries the same addresses the IP header gets"}})
-	}
+	ipv4WritePacketRule(c, e1)
+	headerChecksumHelpersRule(c, e1)
 	if fn := c.Fn(e1, "tcp.sendTCP"); fn != nil {
 		tcp := "(*buffer.Prependable).Prepend(&new(buffer.Prependable), (20 + builtin:len($8)))"
 		part := "phi{(*stack.Route).PseudoHeaderChecksum($0, 6) | header.Checksum(buffer.VectorisedView.Views($2)[(1 + phi{-1 | loop})], loop)}"
@@ -609,4 +568,64 @@ func contradictory(conds []string) bool {
 		}
 	}
 	return false
+}
+
+// ipv4WritePacketRule: the complete site table of the IPv4 emitter (size
+// guard counts the 20-byte header, fields, identification, checksum order,
+// one link write whose result is the result). Shared by C06/E1 and C11/U13.
+func ipv4WritePacketRule(c *Ctx, e1 string) {
+	if fn := c.Fn(e1, "(*ipv4.endpoint).WritePacket"); fn != nil {
+		fits := "(((20 + buffer.Prependable.UsedLength($2)) + buffer.VectorisedView.Size($3)) < 65536)"
+		ip := "(*buffer.Prependable).Prepend(&new(buffer.Prependable), 20)"
+		tl := "(buffer.Prependable.UsedLength(new(buffer.Prependable)@2) + buffer.VectorisedView.Size($3))"
+		big := "!(" + tl + " < 69)"
+		c.CheckSites(e1, fn, []SiteSpec{
+			{Kind: "return", Args: []string{"tcpip.ErrMessageTooLong"}, Guards: []string{"!" + fits}, Exact: true, N: 1, Why: "E2: a datagram whose total length does not fit 16 bits is refused (fixed D5)"},
+			{Kind: "call", Target: "(*buffer.Prependable).Prepend", Args: []string{"&new(buffer.Prependable)", "20"}, Guards: []string{fits}, Exact: true, N: 1, Why: "20-byte header, no options"},
+			{Kind: "store", Target: "header.IPv4Fields.IHL", Args: []string{"new(header.IPv4Fields)", "20"}, Guards: []string{fits}, Exact: true, N: 1, Why: "IHL = the prepended size"},
+			{Kind: "store", Target: "header.IPv4Fields.TotalLength", Args: []string{"new(header.IPv4Fields)", tl}, Guards: []string{fits}, Exact: true, N: 1, Why: "E2: total length = used header bytes AFTER the prepend (@2) + payload size"},
+			{Kind: "call", Target: "sync/atomic.AddUint32", Args: []string{"&ipv4.ids[(ipv4.hashRoute($1, $4) % 2048)]", "1"}, Guards: []string{fits, big}, Exact: true, N: 1, Why: "E4: per-flow bucket counter, incremented atomically, for packets that may be fragmented (> 68 bytes)"},
+			{Kind: "store", Target: "header.IPv4Fields.ID", Args: []string{"new(header.IPv4Fields)", "phi{0 | sync/atomic.AddUint32(&ipv4.ids[(ipv4.hashRoute($1, $4) % 2048)], 1)}"}, Guards: []string{fits}, Exact: true, N: 1, Why: "E4: ID = that counter value (0 for small packets)"},
+			{Kind: "store", Target: "header.IPv4Fields.TTL", Args: []string{"new(header.IPv4Fields)", "$5"}, Guards: []string{fits}, Exact: true, N: 1, Why: "TTL argument"},
+			{Kind: "store", Target: "header.IPv4Fields.Protocol", Args: []string{"new(header.IPv4Fields)", "$4"}, Guards: []string{fits}, Exact: true, N: 1, Why: "transport protocol argument"},
+			{Kind: "store", Target: "header.IPv4Fields.SrcAddr", Args: []string{"new(header.IPv4Fields)", "$1.LocalAddress"}, Guards: []string{fits}, Exact: true, N: 1, Why: "E3: source = route local address"},
+			{Kind: "store", Target: "header.IPv4Fields.DstAddr", Args: []string{"new(header.IPv4Fields)", "$1.RemoteAddress"}, Guards: []string{fits}, Exact: true, N: 1, Why: "E3: destination = route remote address"},
+			{Kind: "call", Target: "header.IPv4.Encode", Args: []string{ip, "&new(header.IPv4Fields)"}, Guards: []string{fits}, Exact: true, N: 1, Why: "fields written into the prepended region"},
+			{Kind: "call", Target: "header.IPv4.SetChecksum", Args: []string{ip, "^header.IPv4.CalculateChecksum(" + ip + ")"}, Guards: []string{fits}, Exact: true, N: 1, Why: "E1: complement of the header sum"},
+			{Kind: "call", Target: "iface:stack.LinkEndpoint.WritePacket", Args: []string{"$0.linkEP", "$1", "new(buffer.Prependable)@2", "$3", "2048"}, Guards: []string{fits}, Exact: true, N: 1, Why: "one frame: this header buffer + the unchanged payload, EtherType IPv4, same route"},
+			{Kind: "return", Args: []string{"iface:stack.LinkEndpoint.WritePacket($0.linkEP, $1, new(buffer.Prependable)@2, $3, 2048)"}, Guards: []string{fits}, Exact: true, N: 1, Why: "the link layer's result"},
+		})
+		c.Ordered(e1, fn, []string{"Prepend", "Encode", "CalculateChecksum", "SetChecksum", "link write"}, []func(Site) bool{isCall("(*buffer.Prependable).Prepend"), isCall("header.IPv4.Encode"), isCall("header.IPv4.CalculateChecksum"), isCall("header.IPv4.SetChecksum"), isCall("iface:stack.LinkEndpoint.WritePacket")})
+	}
+}
+
+// headerChecksumHelpersRule: what the per-protocol checksum helpers sum
+// over. Shared by C06/E1 and C15/B5.
+func headerChecksumHelpersRule(c *Ctx, e1 string) {
+	if fn := c.Fn(e1, "header.IPv4.CalculateChecksum"); fn != nil {
+		c.CheckSites(e1, fn, []SiteSpec{{Kind: "return", Args: []string{"header.Checksum($0[:header.IPv4.HeaderLength($0)], 0)"}, Guards: []string{}, Exact: true, N: 1, Why: "sum over exactly the IHL header bytes, from 0"}})
+	}
+	for _, v := range []struct{ fn, hdr string }{{"header.TCP.CalculateChecksum", "$0[:header.TCP.DataOffset($0)]"}, {"header.UDP.CalculateChecksum", "$0[:8]"}} {
+		if fn := c.Fn(e1, v.fn); fn != nil {
+			c.CheckSites(e1, fn, []SiteSpec{
+				{Kind: "call", Target: "encoding/binary.bigEndian.PutUint16", Args: []string{"encoding/binary.BigEndian", "new([2]byte)[:2]", "$2"}, Guards: []string{}, Exact: true, N: 1, Why: "the pseudo-header length word, big-endian"},
+				{Kind: "call", Target: "header.Checksum", Args: []string{"new([2]byte)[:2]", "$1"}, Guards: []string{}, Exact: true, N: 1, Why: "added to the partial sum"},
+				{Kind: "call", Target: "header.Checksum", Args: []string{v.hdr, "header.Checksum(new([2]byte)[:2], $1)"}, Guards: []string{}, Exact: true, N: 1, Why: "then the transport header bytes (with options for TCP)"},
+				{Kind: "return", Args: []string{"header.Checksum(" + v.hdr + ", header.Checksum(new([2]byte)[:2], $1))"}, Guards: []string{}, Exact: true, N: 1, Why: "that sum is the result"},
+			})
+			c.Ordered(e1, fn, []string{"length word written", "length word summed"}, []func(Site) bool{isCall("encoding/binary.bigEndian.PutUint16"), func(s Site) bool {
+				return s.Kind == "call" && s.Target == "header.Checksum" && len(s.Args) == 2 && s.Args[0] == "new([2]byte)[:2]"
+			}})
+		}
+	}
+	if fn := c.Fn(e1, "header.PseudoHeaderChecksum"); fn != nil {
+		c.CheckSites(e1, fn, []SiteSpec{
+			{Kind: "elemstore", Target: "&new([2]byte)", Args: []string{"0", "0"}, Guards: []string{}, Exact: true, N: 1, Why: "zero byte"},
+			{Kind: "elemstore", Target: "&new([2]byte)", Args: []string{"1", "$0"}, Guards: []string{}, Exact: true, N: 1, Why: "protocol number"},
+			{Kind: "return", Args: []string{"header.Checksum([0, $0], header.Checksum($2, header.Checksum($1, 0)))"}, Guards: []string{}, Exact: true, N: 1, Why: "source, destination, (0, protocol)"},
+		})
+	}
+	if fn := c.Fn(e1, "(*stack.Route).PseudoHeaderChecksum"); fn != nil {
+		c.CheckSites(e1, fn, []SiteSpec{{Kind: "return", Args: []string{"header.PseudoHeaderChecksum($1, $0.LocalAddress, $0.RemoteAddress)"}, Guards: []string{}, Exact: true, N: 1, Why: "E3: the pseudo-header carries the same addresses the IP header gets"}})
+	}
 }
